@@ -153,7 +153,7 @@ def policy_replay(ctx, policy, variant, quick, found):
 
 def e2e(ctx, variant, found):
     t = ctx.thorough
-    nsim = 140 if t else 22
+    nsim = 140 if t else 18
     behs = []
     for k, policy in enumerate(("rr", "random", "lc")):
         bs = emit(ctx, "BalanceE2EGen", "Sim_BalanceE2E_%s_%s.cfg" % (policy, variant), "BEH", mode="sim",
@@ -161,12 +161,20 @@ def e2e(ctx, variant, found):
         behs += [{"policy": policy, "steps": b} for b in bs]
     if len(behs) < nsim * 2:
         raise kit.Inconclusive("only %d e2e behaviours" % len(behs))
+    # directed behaviours (shortest path into a named window, by trap invariant)
+    directed = 0
+    for trap in (("latch", "stalemark") if t else ("latch",)):
+        for policy in (("rr", "random", "lc") if t else ("rr",)):
+            bs = emit(ctx, "BalanceE2EGen", "Trap_BalanceE2E_%s_%s_%s.cfg" % (trap, policy, variant), "TRAP")
+            if not bs:
+                raise kit.Inconclusive("window %s is not reachable in BalanceE2EGen (%s, %s)" % (trap, policy, variant))
+            behs += [{"policy": policy, "steps": b} for b in bs[:2]]
+            directed += len(bs[:2])
     bfile = os.path.join(ctx.work, "e2e.ndjson")
     rfile = os.path.join(ctx.work, "e2e-results.ndjson")
     kit.write_ndjson(bfile, behs)
     t0 = time.time()
-    ctx.harness(["c06-e2e", "-in", bfile, "-out", rfile, "-naddr", "2", "-long", "2" if t else "1",
-                 "-longms", "10000" if t else "3000", "-shortms", "300"], timeout=2400)
+    ctx.harness(["c06-e2e", "-in", bfile, "-out", rfile, "-naddr", "2", "-long", "0", "-shortms", "200"], timeout=2400)
     kit.log("[go] e2e: %d behaviours in %.1fs" % (len(behs), time.time() - t0))
     results = {r["id"]: r for r in kit.read_ndjson(rfile)}
     events = []
@@ -256,8 +264,6 @@ def e2e(ctx, variant, found):
             sig, what, j = f[0], f[1], f[2]
             e = found.setdefault(sig, {"n": 0, "art": None, "len": 10 ** 9, "detail": "", "long": False})
             e["n"] += 1
-            if grp == "latch" and f[3] >= 1000:
-                e["long"] = True
             if j < e["len"]:
                 e["len"] = j
                 e["detail"] = "e2e %s policy: %s at step %d of %s" % (b["policy"], what, j, json.dumps(ops_of(steps[:j + 1])))
@@ -268,11 +274,26 @@ def e2e(ctx, variant, found):
     if behs and results.get(0) and not results[0].get("err"):
         ctx.sample({"e2e_policy": behs[0]["policy"], "ops": ops_of(behs[0]["steps"]),
                     "observed": [{k: v for k, v in o.items() if v not in (None, [], 0, False, "")} for o in results[0]["obs"]]})
-    # a latch finding only counts if at least one observation used the generous deadline
+    # a closure deadline of 200 ms is used in the main run; every latch finding is re-run once with a
+    # generous deadline and only reported if the relay is still open then
+    generous = 10000 if t else 5000
     for sig in list(found):
-        if sig.startswith("removed-latch-not-closed") and found[sig].get("long") is False and found[sig]["art"]["kind"] == "c06-e2e":
-            ctx.notes.append("%s only seen with the short deadline (%d times): not reported" % (sig, found[sig]["n"]))
+        if not (sig.startswith("removed-latch-not-closed") and found[sig]["art"]["kind"] == "c06-e2e"):
+            continue
+        art = found[sig]["art"]
+        b1 = os.path.join(ctx.work, "rerun.ndjson")
+        r1 = os.path.join(ctx.work, "rerun-results.ndjson")
+        kit.write_ndjson(b1, [{"policy": art["policy"], "steps": art["steps"]}])
+        ctx.harness(["c06-e2e", "-in", b1, "-out", r1, "-naddr", "2", "-long", "1", "-longms", str(generous)], timeout=300)
+        rr = kit.read_ndjson(r1)[0]
+        last = (rr.get("obs") or [{}])[-1]
+        if rr.get("err") or not last.get("mustStillOpen"):
+            ctx.notes.append("%s: not reproduced with the %d ms deadline (flaky-inconclusive, not reported): %s"
+                             % (sig, generous, rr.get("err") or last))
             del found[sig]
+        else:
+            found[sig]["detail"] = found[sig]["detail"].replace(" 200 ms after", " %d ms after" % last.get("deadlineMs", generous))
+            art["observed_with_generous_deadline"] = rr["obs"]
     # ---- code -> spec
     accepted = None
     for v in [variant] + [x for x in ("pinned", "fixed") if x != variant]:
